@@ -60,7 +60,7 @@ ASSUMPTIONS = [
 ]
 BOUNDS = {
     "quick": {"attrs": 18000, "slot": 6000, "asset": 3000, "asset_enum": "all case variants x 10 tails x 2 positions"},
-    "thorough": {"attrs": 120000, "slot": 40000, "asset": 20000, "asset_enum": "all case variants x 10 tails x 2 positions x 3 entries"},
+    "thorough": {"attrs": 360000, "slot": 120000, "asset": 60000, "asset_enum": "all case variants x 10 tails x 2 positions x 3 entries"},
 }
 
 SPECIALS = "\"'<>&"
@@ -1171,7 +1171,7 @@ def plan(tier, seed, scale=1.0):
     if tier == "quick":
         na, ns, nc = 16, 8, 4
     else:
-        na, ns, nc = 48, 24, 8
+        na, ns, nc = 144, 72, 24
     n = max(na, int(b["attrs"] * scale))
     for sh in range(na):
         specs.append({"kind": "attrs", "n": -(-n // na), "seed": derive_seed(seed, "attrs", sh), "selftest": sh == 0})
